@@ -5085,12 +5085,17 @@ impl<'a, 'graph> Builder<'a, 'graph> {
           }
           let base_url = self.jsr_url_provider.package_url(nv);
           let export_name = resolution_item.nv_ref.export_name();
-          // an export value that can't be joined to the package url (malformed
-          // manifest) is not a usable export
+          // an export value that can't be joined to the package url or that
+          // leads outside of the package (malformed manifest) is not a usable
+          // export
           let maybe_export = match version_info.export(&export_name) {
             Some(export_value) => match base_url.join(export_value) {
-              Ok(specifier) => Some((export_value, specifier)),
-              Err(_) => None,
+              Ok(specifier)
+                if specifier.as_str().starts_with(base_url.as_str()) =>
+              {
+                Some((export_value, specifier))
+              }
+              _ => None,
             },
             None => None,
           };
